@@ -103,6 +103,21 @@ static void rec_double(const char * src, double v) {
     SCPI_DoubleToStr(v, s, sizeof s);
     s[sizeof s - 1] = 0;
     bytes("ts", s);
+    {
+        /* the same helper with a buffer that the text fills exactly, and with one of 300 bytes */
+        static char big[300];
+        size_t need = strlen(s) + 1;
+        char * fit = malloc(need);
+        memset(fit, 0x55, need);
+        SCPI_DoubleToStr(v, fit, need);
+        fit[need - 1] = 0;
+        bytes("tsx", fit);
+        free(fit);
+        memset(big, 0x55, sizeof big);
+        SCPI_DoubleToStr(v, big, sizeof big);
+        big[sizeof big - 1] = 0;
+        bytes("tsb", big);
+    }
     outn = 0;
     ctx.output_count = 0;
     SCPI_ResultDouble(&ctx, v);
@@ -154,6 +169,20 @@ static void rec_float(const char * src, float f) {
     SCPI_FloatToStr(f, s, sizeof s);
     s[sizeof s - 1] = 0;
     bytes("ts", s);
+    {
+        static char big[300];
+        size_t need = strlen(s) + 1;
+        char * fit = malloc(need);
+        memset(fit, 0x55, need);
+        SCPI_FloatToStr(f, fit, need);
+        fit[need - 1] = 0;
+        bytes("tsx", fit);
+        free(fit);
+        memset(big, 0x55, sizeof big);
+        SCPI_FloatToStr(f, big, sizeof big);
+        big[sizeof big - 1] = 0;
+        bytes("tsb", big);
+    }
     outn = 0;
     ctx.output_count = 0;
     SCPI_ResultFloat(&ctx, f);
